@@ -30,6 +30,9 @@ const RP: &str = "example.com";
 enum Cer {
     /// assertion with seeded credential k
     Assert(usize),
+    /// assertion without an allow list (the in-memory store answers NoCredentials; the ceremony
+    /// still takes the lock for its lookup)
+    AssertAny,
     Register,
 }
 
@@ -103,9 +106,12 @@ fn run_config(cfg: &Config, choose: &mut dyn FnMut(usize, usize) -> usize) -> Ru
                 let creds = &creds;
                 tasks.push(Box::pin(async move {
                     match c {
-                        Cer::Assert(k) => {
-                            let id = creds[k].credential_id.to_vec();
-                            match a.get_assertion(ga_request(RP, &[1u8; 32], Some(vec![descriptor(&id)]), None, true, true)).await {
+                        Cer::Assert(_) | Cer::AssertAny => {
+                            let allow = match c {
+                                Cer::Assert(k) => Some(vec![descriptor(&creds[k].credential_id)]),
+                                _ => None,
+                            };
+                            match a.get_assertion(ga_request(RP, &[1u8; 32], allow, None, true, true)).await {
                                 Ok(r) => {
                                     let ctr = authdata::decode(&r.auth_data.to_vec()).map(|d| d.counter).unwrap_or(0);
                                     Ok((r.credential.map(|d| d.id.to_vec()).unwrap_or_default(), ctr))
@@ -154,6 +160,7 @@ fn run_config(cfg: &Config, choose: &mut dyn FnMut(usize, usize) -> usize) -> Ru
         (StoreKind::Rec, LockKind::Mutex) => {
             let st = RecStore::new(log.clone(), Disc::Full);
             st.set_all_yields(cfg.store_yields);
+            fail_idless_lookups(&st, cfg);
             for c in &creds {
                 st.insert_raw(c.clone());
             }
@@ -163,11 +170,23 @@ fn run_config(cfg: &Config, choose: &mut dyn FnMut(usize, usize) -> usize) -> Ru
         (StoreKind::Rec, LockKind::RwLock) => {
             let st = RecStore::new(log.clone(), Disc::Full);
             st.set_all_yields(cfg.store_yields);
+            fail_idless_lookups(&st, cfg);
             for c in &creds {
                 st.insert_raw(c.clone());
             }
             let h = st.clone();
             go!(Arc::new(tokio::sync::RwLock::new(st)), |_s: &Arc<tokio::sync::RwLock<RecStore>>| h.snapshot())
+        }
+    }
+}
+
+/// With an id-less assertion in the configuration, the reference store's lookups fail with
+/// NoCredentials (as the shipped in-memory store's do), but - unlike that store - it suspends inside
+/// the call while the wrapper holds the lock: the error path of the wrappers becomes schedulable.
+fn fail_idless_lookups(st: &RecStore, cfg: &Config) {
+    if cfg.cers.contains(&Cer::AssertAny) {
+        for k in 0..16 {
+            st.set_fault(crate::collab::Kind::Find, k, 0x2E);
         }
     }
 }
@@ -192,7 +211,7 @@ fn check_history(rep: &mut Report, engine: &str, case: &Value, items: &[(Cer, Op
     // assertions per credential
     let mut per: HashMap<Vec<u8>, Vec<(u32, u64, u64)>> = HashMap::new();
     for (cer, res, s, e) in items {
-        if let (Cer::Assert(_), Some(Ok((id, ctr)))) = (cer, res) {
+        if let (Cer::Assert(_) | Cer::AssertAny, Some(Ok((id, ctr)))) = (cer, res) {
             per.entry(id.clone()).or_default().push((*ctr, *s, *e));
         }
     }
@@ -249,6 +268,8 @@ fn configs(thorough: bool) -> Vec<Config> {
         ("assert||assert on two credentials", vec![Cer::Assert(0), Cer::Assert(1)]),
         ("assert||register", vec![Cer::Assert(0), Cer::Register]),
         ("register||register", vec![Cer::Register, Cer::Register]),
+        ("assert without allow list||register", vec![Cer::AssertAny, Cer::Register]),
+        ("assert without allow list||assert", vec![Cer::AssertAny, Cer::Assert(0)]),
     ];
     for (name, cers) in shapes {
         for store in [StoreKind::Memory, StoreKind::Rec] {
@@ -393,16 +414,20 @@ fn thread_round(rep: &mut Report, seed: u64, idx: u64, threads: usize, per_threa
                     for _ in 0..per_thread {
                         uv.set_yields(trng.below(3));
                         uv.set_spin(trng.below(40) as u32);
-                        let cer = match trng.below(4) {
+                        let cer = match trng.below(6) {
                             0 => Cer::Register,
                             1 => Cer::Assert(1),
+                            2 => Cer::AssertAny,
                             _ => Cer::Assert(0),
                         };
                         let t0 = log.push(t, crate::collab::Ev::Call { op: "ceremony" });
                         let res = match cer {
-                            Cer::Assert(k) => {
-                                let id = creds[k].credential_id.to_vec();
-                                block_on_thread(auth.get_assertion(ga_request(RP, &[1u8; 32], Some(vec![descriptor(&id)]), None, true, true)), 200).map(|r| match r {
+                            Cer::Assert(_) | Cer::AssertAny => {
+                                let allow = match cer {
+                                    Cer::Assert(k) => Some(vec![descriptor(&creds[k].credential_id)]),
+                                    _ => None,
+                                };
+                                block_on_thread(auth.get_assertion(ga_request(RP, &[1u8; 32], allow, None, true, true)), 200).map(|r| match r {
                                     Ok(r) => Ok((r.credential.map(|d| d.id.to_vec()).unwrap_or_default(), authdata::decode(&r.auth_data.to_vec()).map(|d| d.counter).unwrap_or(0))),
                                     Err(e) => Err(status_byte_ref(&e)),
                                 })
